@@ -853,6 +853,29 @@ def check_c15(tier, seed):
             n_test_ok += 1
     res.guard("declarations_clean_under_cfg_test", n_test_ok, 200)
     res.hist["cfg(test)-build:accepted"] = n_test_ok
+    # a third crate that links neither `alloc` nor `std` anywhere in its graph (no `extern crate alloc`, no arbitrary, serde without its alloc
+    # feature - the repository's own no_std example is of this kind): inherent methods that live in `alloc` (`str::to_ascii_lowercase`, `[T]::to_vec`..)
+    # resolve in the first crate only because `alloc` happens to be loaded there
+    bare = [c for c in cases if c.expect == "MUST_ACCEPT" and not any(w in c.body for w in ("alloc", "Arbitrary", "arbitrary", "Point"))]
+    vcb = verdict.VerdictCrate("c15bare-%s" % tier, ["serde"], default_features=False, no_std=True, alloc=False,
+                               extra_deps='serde = { version = "1.0.150", default-features = false, features = ["derive"] }\n', nshards=8)
+    try:
+        out_b, info_b = verdict.run_verdicts(vcb, bare, log=log)
+    except Inconclusive as e:
+        res.inconclusive.append("alloc-free build: " + str(e))
+        return finish(res)
+    n_bare_ok = 0
+    for c in bare:
+        o = out_b[c.id]
+        res.evaluations += 1
+        if o["verdict"] == "rejected":
+            codes = ",".join(sorted(set(str(e["code"]) for e in o["errors"])))
+            parts = c.rule.split(":")
+            res.violations.append(verdict_witness(res, c, "rejected in the alloc-free build: %s" % json.dumps(o["errors"])[:500], "not-no_std-clean-without-alloc:%s:%s:%s" % (parts[1], parts[-1], codes)))
+        else:
+            n_bare_ok += 1
+    res.guard("declarations_clean_without_alloc", n_bare_ok, 150)
+    res.hist["alloc-free-build:accepted"] = n_bare_ok
     cells = set()
     controls_rejected = 0
     for c in cases:
